@@ -25,6 +25,10 @@ Obs(prev, chg) ==       \* chg[i] = <<cell index, value>>
                      THEN chg[CHOOSE i \in 1..Len(chg) : CellOrder[chg[i][1]] = c][2] ELSE prev[c]]
 
 \* operations whose outcome (ok / which error) the property leaves open; their effect on values is still demanded
+\* Out of memory (7) is raised when array space cannot grow: a statement that uses an element of an array that does not exist
+\* dimensions it implicitly with 11 elements per dimension (S$: 11 x 11 string descriptors of 3 bytes plus the header), and a
+\* failed statement shows no allocation.  The bound covers the largest implicit array of the driver.
+AutoDimMax == 400
 OpenOutcome(op) == op \in {"erase", "dim", "clear", "nop", "swap"}
 
 IsProg(e) == Has(e, "prog") /\ e.prog
@@ -39,12 +43,17 @@ Judge(s0, e) ==
         copy  == IF e.op \in {"lset", "rset", "midset"} /\ e.c \in s0.code THEN Len(s0.ref[e.c]) ELSE 0
     IN  IF e.kind = "internal" THEN "internal_error"
         ELSE IF e.kind = "err" THEN
-             IF obs # s0.ref THEN "failed_statement_changed_a_value"
+             \* (ERASE of two arrays works through its list: when the second array does not exist the first one is already erased)
+             IF obs # s0.ref /\ ~(e.op = "erase" /\ Has(e, "arr2") /\ obs = Do(s0.ref, [op |-> "erase", arr |-> e.arr]).ref)
+             THEN "failed_statement_changed_a_value"
              ELSE IF e.code = d.err \/ OpenOutcome(e.op) THEN "ok"
              ELSE IF e.code \in {7, 14} THEN
-                  IF s0.kk /\ ~MayRunOut(top, s0.ae, s0.ref, s0.code, d.need + copy, alloc + (IF e.code = 7 THEN 64 ELSE 0))
+                  IF s0.kk /\ ~MayRunOut(top, s0.ae, s0.ref, s0.code, d.need + copy, alloc + (IF e.code = 7 THEN AutoDimMax ELSE 0))
                   THEN "out_of_space_with_sufficient_free_space" ELSE "ok"
              ELSE "error_not_demanded_by_reference"
+        \* after an ERASE that leaves no array behind, the array space is empty: the memory of every erased array was given back
+        \* (e.noarr: no array exists after the statement; e.as / e.ae: start / end of the array space)
+        ELSE IF Has(e, "noarr") /\ e.noarr /\ Has(e, "as") /\ e.ae # e.as THEN "array_space_not_empty_when_no_array_exists"
         ELSE IF d.err # 0 THEN "demanded_error_not_raised"
         ELSE IF obs # d.ref THEN (IF e.op \in {"fre", "fre0", "nop"} THEN "collection_or_read_changed_a_value" ELSE "value_differs_from_reference")
         ELSE IF e.op = "fre" /\ s0.kk /\ e.fre # FreeAfterGC(s0.koff + e.mem, e.ae, obs, CodeNext(s0, e)) THEN "fre_equation"
